@@ -1,4 +1,5 @@
 """C01 Compiled pure-Python code behaves exactly like CPython (DESIGN.md section 5, C01)."""
+import os
 import re
 
 from vlib import cy, diff
@@ -20,7 +21,15 @@ def classify(m):
         return 'sideeffect-log-differs'
     if ecore[0] == 'exc' and gcore[0] == 'exc':
         if ecore[1] != gcore[1]:
-            return 'exc-type:%s->%s' % (ecore[1], gcore[1])
+            # different exception class: keyed by both classes and CPython's (normalised) message, which names the operation
+            msg = ''
+            try:
+                msg = eval(ecore[2][1][0][1]) if ecore[2][1] and ecore[2][1][0][0] == 'str' else ''
+                msg = re.sub(r"'[^']*'", "'_'", msg)
+                msg = re.sub(r'\d+', 'N', msg)[:60]
+            except Exception:
+                pass
+            return 'exc-type:%s->%s:%s' % (ecore[1], gcore[1], msg)
         # same type, different args. Only a difference in the *wording* of a single message string produced by
         # Cython's own runtime helper is classed as msg-text (keyed by the normalised compiled wording);
         # any other difference in args (arity, non-str values such as a KeyError key) is exc-args.
@@ -67,6 +76,38 @@ def offending_function(src, modname, errors):
     return None
 
 
+def bisect_crashing_function(tree, src, modname, names):
+    """A compiler crash without a source position: find one function whose presence alone crashes the compiler."""
+    head = src[:src.find('\ndef fz')]
+    bodies = {}
+    for n in names:
+        i0 = src.find('\ndef %s(' % n)
+        i1 = src.find('\ndef fz', i0 + 1)
+        bodies[n] = src[i0:i1 if i1 > 0 else len(src)]
+    d = tree.subdir('bisect_' + modname)
+
+    def crashes(subset):
+        p = os.path.join(d, modname + '.py')
+        with open(p, 'w', encoding='utf-8') as f:
+            f.write(head + ''.join(bodies[n] for n in subset) + '\n')
+        res, _ = tree.translate([{'src': p}])
+        return bool(res[0].get('exc'))
+    cand = list(names)
+    for _ in range(8):
+        if len(cand) <= 1:
+            break
+        half = cand[:len(cand) // 2]
+        if crashes(half):
+            cand = half
+            continue
+        other = cand[len(cand) // 2:]
+        if crashes(other):
+            cand = other
+            continue
+        return None
+    return cand[0] if len(cand) == 1 else None
+
+
 def remove_function(src, fn):
     out, skip = [], False
     for l in src.splitlines():
@@ -108,6 +149,8 @@ def main(ck):
             if inf['ok'] or inf['stage'] != 'translate':
                 continue
             fn = offending_function(mods[name], name, inf['errors'])
+            if fn is None and inf.get('crash'):
+                fn = bisect_crashing_function(tree, mods[name], name, [f['name'] for f in meta[name]])
             if fn is None:
                 continue
             msg = [l for l in inf['errors'].splitlines() if l.strip() and 'warning' not in l][-1:]
